@@ -19,7 +19,19 @@ func init() { register("C07", runC07) }
 type wk struct{ Key, ID int }
 
 func runC07(c *core.Ctx) {
-	switch c.R.Intn(6) {
+	switch c.R.Intn(8) {
+	case 6: // elements of 96 bytes (size-dependent copy or search paths)
+		sortedStrict(c, "[12]int64", func(r *core.Rand) [12]int64 { v := int64(r.Intn(30)); return [12]int64{0: v / 5, 5: v % 5, 11: -v} },
+			func(a, b [12]int64) bool {
+				if a[0] != b[0] {
+					return a[0] < b[0]
+				}
+				return a[5] < b[5]
+			}, false)
+	case 7: // floats over a wide exponent range, infinities included
+		sortedStrict(c, "float64", func(r *core.Rand) float64 {
+			return []float64{0, 0.25, 1, -1, 0.5, 1e300, -1e300, 5e-324, math.Inf(1), math.Inf(-1), 2, 3}[r.Intn(12)]
+		}, func(a, b float64) bool { return a < b }, false)
 	case 0:
 		sortedStrict(c, "int-asc", func(r *core.Rand) int { return r.Intn(12) }, func(a, b int) bool { return a < b }, true)
 	case 1:
@@ -250,6 +262,46 @@ func sortedStrict[T comparable](c *core.Ctx, tname string, gen func(*core.Rand) 
 		}
 		c.Count("front_removal_bursts", 1)
 		if !fullCheck("Remove(present)") {
+			return
+		}
+	}
+	if r.Chance(1, 40) || (len(model) >= 1024 && r.Bool()) {
+		// a long streak of Adds with no removal in between (1300+ from a small slice, a
+		// third to a half of the current length on a big one): growth steps of the backing
+		// array taken in the middle of a streak
+		streak := r.Range(1300, 2600)
+		if len(model) >= 1024 {
+			streak = r.Range(len(model)/3, len(model)/2+200)
+		}
+		for i := 0; i < streak; i++ {
+			v := gen(r)
+			var idx int
+			if p, pv := core.Catch(func() { idx = s.Add(v) }); p {
+				hist = append(hist, fmt.Sprintf("streak:Add(%v)", v))
+				fail("Add:panic", fmt.Sprintf("Add(%v) (number %d of a streak of Adds) panicked: %v", v, i+1, pv))
+				return
+			}
+			k := sort.Search(len(model), func(k int) bool { return !less(model[k], v) })
+			model = append(model, v)
+			copy(model[k+1:], model[k:])
+			model[k] = v
+			if idx < 0 || idx >= len(model) || model[idx] != v {
+				hist = append(hist, fmt.Sprintf("streak:Add(%v)", v))
+				fail("Add:returned-index", fmt.Sprintf("Add(%v) (number %d of a streak of Adds, Len now %d) returned %d", v, i+1, len(model), idx))
+				return
+			}
+			if s.Len() != len(model) {
+				hist = append(hist, fmt.Sprintf("streak:Add(%v)", v))
+				fail("Add:Len", fmt.Sprintf("after Add number %d of a streak Len()=%d, model %d", i+1, s.Len(), len(model)))
+				return
+			}
+			if i%128 == 127 && !fullCheck("Add") {
+				return
+			}
+		}
+		hist = append(hist, fmt.Sprintf("streak of %d Adds", streak))
+		c.Count("long_add_streaks", 1)
+		if !fullCheck("Add") {
 			return
 		}
 	}
